@@ -458,6 +458,20 @@ class Structurer:
                 out.append(st)
                 i += 1
                 continue
+            # `x.extend([e1, *e2, ..])` on a local list x that the elements do not mention -> x.append(e1); x.extend(e2); ..
+            if isinstance(st, ast.Expr) and isinstance(st.value, ast.Call) and isinstance(st.value.func, ast.Attribute) \
+                    and st.value.func.attr == 'extend' and isinstance(st.value.func.value, ast.Name) and len(st.value.args) == 1 \
+                    and not st.value.keywords and isinstance(st.value.args[0], ast.List) and len(st.value.args[0].elts) >= 2 \
+                    and not any(isinstance(y, ast.Name) and y.id == st.value.func.value.id for y in ast.walk(st.value.args[0])):
+                xn = st.value.func.value
+                new_stmts: list[ast.stmt] = []
+                for el in st.value.args[0].elts:
+                    meth, arg = ('extend', el.value) if isinstance(el, ast.Starred) else ('append', el)
+                    new_stmts.append(ast.copy_location(ast.Expr(value=ast.Call(func=ast.Attribute(value=ast.Name(id=xn.id, ctx=ast.Load()), attr=meth,
+                                                                                       ctx=ast.Load()), args=[arg], keywords=[])), st))
+                body = body[:i] + new_stmts + body[i + 1:]
+                self.changed = True
+                continue
             # `x = [..]` followed by x.append(e) / x.extend(e) statements -> one list display (same evaluation order)
             if isinstance(st, ast.Assign) and len(st.targets) == 1 and isinstance(st.targets[0], ast.Name) and isinstance(st.value, ast.List):
                 xname = st.targets[0].id
@@ -564,8 +578,16 @@ def _boolish(e: ast.AST) -> bool:
 class _Exprs(ast.NodeTransformer):
     """conditional expressions and formatted strings"""
 
+    def visit_BoolOp(self, n: ast.BoolOp) -> ast.AST:
+        self.generic_visit(n)
+        return _flatten_bool(n)
+
     def visit_IfExp(self, n: ast.IfExp) -> ast.AST:
         self.generic_visit(n)
+        # `E if E else F` -> `E or F` for an expression E without calls (evaluating it once or twice gives the same object)
+        if ast.dump(n.test) == ast.dump(n.body) and not any(isinstance(x, (ast.Call, ast.NamedExpr, ast.Yield, ast.YieldFrom, ast.Await))
+                                                             for x in ast.walk(n.test)):
+            return _flatten_bool(ast.copy_location(ast.BoolOp(op=ast.Or(), values=[n.test, n.orelse]), n))
         # `v if v else X` -> `v or X`;  `X if v else v` -> `v and X`   (v a plain name: evaluated once either way)
         if isinstance(n.test, ast.Name) and isinstance(n.body, ast.Name) and n.body.id == n.test.id:
             return ast.copy_location(ast.BoolOp(op=ast.Or(), values=[n.test, n.orelse]), n)
@@ -1050,3 +1072,225 @@ def normal_form(fn: ast.FunctionDef) -> str:
 
 def digest(fn: ast.FunctionDef) -> str:
     return hashlib.sha256(normal_form(fn).encode()).hexdigest()[:20]
+
+
+# ----------------------------------------------------------------------------- private helpers
+def _own_nodes(fn: ast.AST):
+    todo = list(ast.iter_child_nodes(fn))
+    while todo:
+        n = todo.pop()
+        yield n
+        if not isinstance(n, (ast.FunctionDef, ast.Lambda, ast.ClassDef)):
+            todo.extend(ast.iter_child_nodes(n))
+
+
+def _simple_arg(e: ast.AST) -> bool:
+    while isinstance(e, ast.Attribute):
+        e = e.value
+    return isinstance(e, (ast.Name, ast.Constant))
+
+
+def helper_table(module: ast.Module, cls: Optional[ast.ClassDef]) -> dict[str, tuple[str, ast.FunctionDef]]:
+    """private helpers a function of `cls` (or a module-level function) may have inlined: name -> (kind, def);
+    kind 'func' (module level, called as `_h(..)`), 'method' (`self._h(..)` / `cls._h(..)` for class/static methods), 'prop' (`self._h`)"""
+    out: dict[str, tuple[str, ast.FunctionDef]] = {}
+
+    def ok(f: ast.FunctionDef) -> bool:
+        if not f.name.startswith('_') or f.name.startswith('__'):
+            return False
+        a = f.args
+        if a.vararg or a.kwarg or a.posonlyargs:
+            return False
+        if any(isinstance(x, (ast.Yield, ast.YieldFrom, ast.Await, ast.Global, ast.Nonlocal)) for x in _own_nodes(f)):
+            return False
+        if any(isinstance(x, (ast.FunctionDef, ast.ClassDef)) for x in _own_nodes(f)):
+            return False
+        rets = [x for x in _own_nodes(f) if isinstance(x, ast.Return)]
+        body = [s for s in f.body if not (isinstance(s, ast.Expr) and isinstance(s.value, ast.Constant))]
+        if len(rets) > 1 or (rets and (not body or rets[0] is not body[-1])):
+            return False
+        if any(isinstance(x, ast.Name) and x.id == f.name for x in _own_nodes(f)):
+            return False      # (directly) recursive
+        return True
+
+    for s in module.body:
+        if isinstance(s, ast.FunctionDef) and ok(s) and not s.decorator_list:
+            out[s.name] = ('func', s)
+    if cls is not None:
+        for s in cls.body:
+            if isinstance(s, ast.FunctionDef) and ok(s):
+                decos = [ast.unparse(d) for d in s.decorator_list]
+                if not decos:
+                    out[s.name] = ('method', s)
+                elif decos in (['staticmethod'], ['classmethod']):
+                    out[s.name] = (decos[0], s)
+                elif len(decos) == 1 and decos[0].split('.')[-1] in ('property', 'custom_property') and len(s.args.args) == 1:
+                    body = [x for x in s.body if not (isinstance(x, ast.Expr) and isinstance(x.value, ast.Constant))]
+                    if len(body) == 1 and isinstance(body[0], ast.Return) and body[0].value is not None:
+                        # a setter for the same name disqualifies (the attribute is then not a pure view)
+                        if sum(1 for t in cls.body if isinstance(t, ast.FunctionDef) and t.name == s.name) == 1:
+                            out[s.name] = ('prop', s)
+    return out
+
+
+class _InlineProps(ast.NodeTransformer):
+    def __init__(self, table: dict[str, tuple[str, ast.FunctionDef]], selfname: str) -> None:
+        self.t, self.selfname = table, selfname
+        self.n = 0
+
+    def visit_Attribute(self, n: ast.Attribute) -> ast.AST:
+        self.generic_visit(n)
+        if isinstance(n.ctx, ast.Load) and isinstance(n.value, ast.Name) and n.value.id == self.selfname and n.attr in self.t \
+                and self.t[n.attr][0] == 'prop' and self.n < 50:
+            f = self.t[n.attr][1]
+            body = [x for x in f.body if not (isinstance(x, ast.Expr) and isinstance(x.value, ast.Constant))]
+            e = copy.deepcopy(body[0].value)        # type: ignore[union-attr]
+            e = _Rename({f.args.args[0].arg: self.selfname}).visit(e)
+            self.n += 1
+            return ast.copy_location(e, n)
+        return n
+
+
+def inline_helpers(fn: ast.FunctionDef, table: dict[str, tuple[str, ast.FunctionDef]], depth: int = 0) -> ast.FunctionDef:
+    """a copy of fn with calls of private helpers replaced by their bodies where that cannot change evaluation order"""
+    fn = copy.deepcopy(fn)
+    if not table or depth > 2:
+        return fn
+    selfname = fn.args.args[0].arg if fn.args.args else ''
+    counter = [0]
+
+    def callee(c: ast.Call) -> Optional[tuple[str, ast.FunctionDef, list[ast.AST]]]:
+        if c.keywords and any(k.arg is None for k in c.keywords):
+            return None
+        if any(isinstance(a, ast.Starred) for a in c.args):
+            return None
+        f = c.func
+        if isinstance(f, ast.Name) and f.id in table and table[f.id][0] == 'func':
+            h = table[f.id][1]
+            params = [a.arg for a in h.args.args]
+            recv: list[ast.AST] = []
+        elif isinstance(f, ast.Attribute) and isinstance(f.value, ast.Name) and f.value.id in (selfname, 'cls', 'self') and f.attr in table \
+                and table[f.attr][0] in ('method', 'staticmethod', 'classmethod') and f.attr != fn.name:
+            kind, h = table[f.attr]
+            params = [a.arg for a in h.args.args]
+            recv = [] if kind == 'staticmethod' else [f.value]
+        else:
+            return None
+        args: list[ast.AST] = list(recv) + list(c.args)
+        kw = {k.arg: k.value for k in c.keywords}
+        if len(args) > len(params):
+            return None
+        defaults = dict(zip(params[len(params) - len(h.args.defaults):], h.args.defaults))
+        kwonly = [a.arg for a in h.args.kwonlyargs]
+        for p_, d_ in zip(kwonly, h.args.kw_defaults):
+            if d_ is not None:
+                defaults[p_] = d_
+        params = params + kwonly
+        for p_ in params[len(args):]:
+            if p_ in kw:
+                args.append(kw.pop(p_))
+            elif p_ in defaults:
+                args.append(defaults[p_])
+            else:
+                return None
+        if kw:
+            return None
+        return h.name, h, args
+
+    def expand(h: ast.FunctionDef, args: list[ast.AST], result: Optional[ast.AST], at: ast.stmt) -> Optional[list[ast.stmt]]:
+        counter[0] += 1
+        tag = f'hlp{counter[0]}_'
+        params = [a.arg for a in h.args.args] + [a.arg for a in h.args.kwonlyargs]
+        body = [copy.deepcopy(s) for s in h.body if not (isinstance(s, ast.Expr) and isinstance(s.value, ast.Constant))]
+        locals_ = {x.id for s in body for x in ast.walk(s) if isinstance(x, ast.Name) and isinstance(x.ctx, (ast.Store, ast.Del))}
+        mapping = {n: tag + n for n in set(params) | locals_}
+        pre: list[ast.stmt] = []
+        for p_, a_ in zip(params, args):
+            if isinstance(a_, ast.Name) and p_ not in locals_:
+                mapping[p_] = a_.id                        # a plain name argument that the helper never rebinds: use it directly
+            else:
+                pre.append(ast.copy_location(ast.Assign(targets=[ast.Name(id=mapping[p_], ctx=ast.Store())], value=a_), at))
+        r = _Rename(mapping)
+        body = [r.visit(s) for s in body]
+        ret = None
+        if body and isinstance(body[-1], ast.Return):
+            ret = body[-1].value
+            body = body[:-1]
+        tail: list[ast.stmt] = []
+        if result is not None:
+            if isinstance(result, ast.Return):
+                tail = [ast.copy_location(ast.Return(value=ret), at)]
+            else:
+                tail = [ast.copy_location(ast.Assign(targets=[result], value=ret if ret is not None else ast.Constant(value=None)), at)]
+        elif ret is not None and any(isinstance(x, ast.Call) for x in ast.walk(ret)):
+            tail = [ast.copy_location(ast.Expr(value=ret), at)]
+        return pre + body + tail
+
+    def block(body: list[ast.stmt]) -> list[ast.stmt]:
+        out: list[ast.stmt] = []
+        for st in body:
+            for fld in ('body', 'orelse', 'finalbody'):
+                sub = getattr(st, fld, None)
+                if isinstance(sub, list) and sub and isinstance(sub[0], ast.stmt):
+                    setattr(st, fld, block(sub))
+            for h_ in getattr(st, 'handlers', []) or []:
+                h_.body = block(h_.body)
+            c: Optional[ast.Call] = None
+            result: Optional[ast.AST] = None
+            if isinstance(st, ast.Expr) and isinstance(st.value, ast.Call):
+                c = st.value
+            elif isinstance(st, ast.Assign) and len(st.targets) == 1 and isinstance(st.value, ast.Call) and isinstance(st.targets[0], ast.Name):
+                c, result = st.value, st.targets[0]
+            elif isinstance(st, ast.Return) and isinstance(st.value, ast.Call):
+                c, result = st.value, st
+            if c is not None and callee(c) is None and isinstance(st, ast.Expr) and len(c.args) == 1 and not c.keywords \
+                    and isinstance(c.args[0], ast.Call) and callee(c.args[0]) is not None and isinstance(c.func, ast.Attribute) \
+                    and isinstance(c.func.value, ast.Name):
+                # `local.method(self._helper(..))`: evaluate the helper first (looking up a method on a local has no effect)
+                counter[0] += 1
+                tmp = f'hlp{counter[0]}_arg'
+                hit0 = callee(c.args[0])
+                assert hit0 is not None
+                ex0 = expand(hit0[1], hit0[2], ast.Name(id=tmp, ctx=ast.Store()), st)
+                if ex0 is not None:
+                    out.extend(ex0)
+                    c.args[0] = ast.copy_location(ast.Name(id=tmp, ctx=ast.Load()), c.args[0])
+                    out.append(st)
+                    continue
+            if c is not None:
+                hit = callee(c)
+                if hit is not None:
+                    ex = expand(hit[1], hit[2], result, st)
+                    if ex is not None:
+                        out.extend(ex)
+                        continue
+            out.append(st)
+        return out
+
+    fn.body = block(fn.body)
+    # expression helpers (single return) with simple arguments, anywhere in an expression
+    class _Expr(ast.NodeTransformer):
+        def visit_Call(self, n: ast.Call) -> ast.AST:
+            self.generic_visit(n)
+            hit = callee(n)
+            if hit is None:
+                return n
+            _, h, args = hit
+            body = [s for s in h.body if not (isinstance(s, ast.Expr) and isinstance(s.value, ast.Constant))]
+            if len(body) != 1 or not isinstance(body[0], ast.Return) or body[0].value is None or not all(_simple_arg(a) for a in args):
+                return n
+            params = [a.arg for a in h.args.args]
+            e = copy.deepcopy(body[0].value)
+            for p_, a_ in zip(params, args):
+                e = _SubstName(p_, a_).visit(e)
+            return ast.copy_location(e, n)
+    fn = _Expr().visit(fn)
+    fn = _InlineProps(table, selfname).visit(fn)
+    ast.fix_missing_locations(fn)
+    return fn
+
+
+def digest_inlined(fn: ast.FunctionDef, table: dict[str, tuple[str, ast.FunctionDef]]) -> str:
+    f2 = inline_helpers(fn, table)
+    f3 = inline_helpers(f2, table, 1) if ast.dump(f2) != ast.dump(fn) else f2
+    return digest(f3)
